@@ -169,6 +169,17 @@ const SYNC_ROUTES: &[(&str, &str)] = &[
     ("spread-iter", "[...{[Symbol.iterator](){ var d=false; return { next(){ if (!d) { d=true; bomb(); return {done:false, value:1}; } return {done:true}; } }; }}].length"),
     ("destructure-iter", "(function(){ var [a] = {[Symbol.iterator](){ return { next(){ bomb(); return {done:false, value:1}; }, return(){ print('S:destructure-return'); return {}; } }; }}; return a; })()"),
     ("define-getter-reflect", "Reflect.get({get p(){ return bomb(); }}, 'p')"),
+    // a builtin holds an open iterator while the callback runs: its `return` method is user code
+    // that must not run after the limit error
+    ("array-from-iter-mapfn", "Array.from({[Symbol.iterator](){ var i=0; return { next(){ return {done: i++>=2, value:i}; }, return(){ print('S:builtin-iter-return'); return {}; } }; }}, function(){ return bomb(); }).length"),
+    ("map-ctor-adder", "(function(){ class M extends Map { set(k,v){ bomb(); return super.set(k,v); } } return new M({[Symbol.iterator](){ var i=0; return { next(){ return {done: i++>=1, value:[i,i]}; }, return(){ print('S:builtin-iter-return'); return {}; } }; }}).size; })()"),
+    ("set-ctor-adder", "(function(){ class S2 extends Set { add(v){ bomb(); return super.add(v); } } return new S2({[Symbol.iterator](){ var i=0; return { next(){ return {done: i++>=1, value:i}; }, return(){ print('S:builtin-iter-return'); return {}; } }; }}).size; })()"),
+    ("weakmap-ctor-adder", "(function(){ class W extends WeakMap { set(k,v){ bomb(); return super.set(k,v); } } new W({[Symbol.iterator](){ var i=0; return { next(){ return {done: i++>=1, value:[{},i]}; }, return(){ print('S:builtin-iter-return'); return {}; } }; }}); return 1; })()"),
+    ("destructure-default", "(function(){ var [a = bomb()] = {[Symbol.iterator](){ return { next(){ return {done:false, value:undefined}; }, return(){ print('S:destructure-return'); return {}; } }; }}; return a; })()"),
+    ("object-fromentries-getter", "Object.fromEntries({[Symbol.iterator](){ var i=0; return { next(){ return {done: i++>=1, value:{get 0(){ bomb(); return 'k'; }, 1:1}}; }, return(){ print('S:builtin-iter-return'); return {}; } }; }}).k"),
+    ("iterator-helper-map", "(typeof Iterator=='function' && Iterator.from ? Iterator.from({[Symbol.iterator](){ var i=0; return { next(){ return {done: i++>=2, value:i}; }, return(){ print('S:builtin-iter-return'); return {}; } }; }}).map(function(x){ bomb(); return x; }).toArray().length : bomb())"),
+    ("yield-star-inner-return", "(function(){ function* inner(){ try { yield 1; } finally { print('S:inner-generator-finally'); } } function* outer(){ yield* inner(); } var g=outer(); g.next(); bomb(); return 1; })()"),
+    ("promise-all-iter", "(function(){ var r = Promise.all({[Symbol.iterator](){ var i=0; return { next(){ return {done: i++>=1, value:{then(res){ res(1); }}}; }, return(){ print('S:builtin-iter-return'); return {}; } }; }}); bomb(); return typeof r; })()"),
     ("array-tostring-join", "[{toString(){ bomb(); return 'x'; }}].join()"),
 ];
 
@@ -545,7 +556,7 @@ pub const PROP: Prop = Prop {
     generate,
     execute,
     shrink,
-    rule: "one run = (3 of 4) one program from the factor product {12 loop forms x 9 placements | 4 recursion shapes} x 50 synchronous re-entry routes x {none | 11 promise-job routes} x 5 wrapper shapes at up to 3 nesting levels x evaluation mode (eval / budgeted eval) with exactly one active limit (loop, recursion or stack) whose value is drawn relative to the bomb size into a must-stop, must-pass or boundary band; executed limited and (if the bomb is bounded) unlimited; or (1 of 4) one or two of 38 feature kernels under a seeded loop / recursion / stack limit, where nothing is predicted and the limited run must equal the unlimited one or end in a limit error of the right kind with a trace that is a prefix of it; non-trivial = the limit fault fired; distinct = distinct (factor tags, band, budget, limit value, bomb steps executed, completion) tuples",
+    rule: "one run = (3 of 4) one program from the factor product {12 loop forms x 9 placements | 4 recursion shapes} x 59 synchronous re-entry routes (9 of them with a builtin or destructuring holding an open iterator whose return() must not run) x {none | 11 promise-job routes} x 5 wrapper shapes at up to 3 nesting levels x evaluation mode (eval / budgeted eval) with exactly one active limit (loop, recursion or stack) whose value is drawn relative to the bomb size into a must-stop, must-pass or boundary band; executed limited and (if the bomb is bounded) unlimited; or (1 of 4) one or two of 38 feature kernels under a seeded loop / recursion / stack limit, where nothing is predicted and the limited run must equal the unlimited one or end in a limit error of the right kind with a trace that is a prefix of it; non-trivial = the limit fault fired; distinct = distinct (factor tags, band, budget, limit value, bomb steps executed, completion) tuples",
     real: &["lexer/parser/compiler/VM/builtins", "SimpleJobExecutor", "RuntimeLimits"],
     stub: &["SimClock", "SimHooks", "print/tick natives (tick has a hard cap that returns an engine-level error: in-process watchdog)"],
     assumptions: &[
